@@ -7,7 +7,7 @@
 // the tree must be identical.
 //
 // A2 (text -> binary): three exhaustive text families — (i) all strings of length <= L over a
-// 22-character alphabet, (ii) all sequences of <= K tokens over punctuation and a 28-literal
+// 22-character alphabet, (ii) all sequences of <= K tokens over punctuation and a 33-literal
 // alphabet, (iii) every text the reference printer emits for a tree family under every lexical
 // style and <= 2 whitespace insertions, plus every single-token deletion / duplication /
 // replacement of those texts — each judged against the three-valued reference reader
@@ -120,7 +120,7 @@ func clipB(b []byte, n int) []byte {
 func main() {
 	rep = engine.NewReport("C04")
 	rep.Rule = "A1: every NBT tree of <=N nodes from refnbt.Gen over the C04 alphabet (12 strings/keys chosen against the quoting decision and the literal classifier; boundary integers; floats 0.1, 1e-20, 1e20, -0, max, min subnormal, 1.5, 1/3, NaN, Inf), one case per tree; " +
-		"A2(i): every string of length <=L over the 22 characters `{}[],:;\"'\\ \\n01-+.ebLIa`; A2(ii): every sequence of <=K tokens over 7 punctuation tokens and 28 literals (one space between adjacent literals); " +
+		"A2(i): every string of length <=L over the 22 characters `{}[],:;\"'\\ \\n01-+.ebLIa`; A2(ii): every sequence of <=K tokens over 7 punctuation tokens and 33 literals (one space between adjacent literals); " +
 		"A2(iii): every (tree, lexical style, layout with <=D whitespace insertions) text printed by ref/refsnbt for the layout tree family, and every single-token deletion, duplication and replacement (7 punctuation + 8 literals) of every undeviated styled text. " +
 		"A1s: every string of <=U units over 128 ASCII bytes + 3 multi-byte runes, every string of <=C characters over the 18-character classifier alphabet and a word list, each as root String, compound key, list element and compound value; " +
 		"A2(iv): every byte value in each one-hole text context and every byte pair in each two-hole context (deduplicated); " +
